@@ -884,6 +884,13 @@ void MockSupport_removeAllComparatorsAndCopiers(struct MockSupport *self)
   __CPROVER_assigns(g_calls, g_method)
   __CPROVER_ensures(g_calls == 1 && g_method == M_MockSupport_removeAllComparatorsAndCopiers);
 @end
+# the same forwarder seen from another forwarder that calls it (none does: a forwarder reaching it has a second effect on the
+# current MockSupport, which its own contract - exactly one forwarded call - then refuses): its effect as proved just below
+@stub removeAllComparatorsAndCopiers_c
+void removeAllComparatorsAndCopiers_c(void)
+  __CPROVER_assigns(g_calls, g_method)
+  __CPROVER_ensures(g_calls == __CPROVER_old(g_calls) + 1 && g_method == M_MockSupport_removeAllComparatorsAndCopiers);
+@end
 @proof fwd.removeAllComparatorsAndCopiers.bounded
 @object-bits 10
 @body removeAllComparatorsAndCopiers_c MockCFunctionComparatorNode_dtor MockCFunctionCopierNode_dtor
